@@ -241,6 +241,6 @@ def run(ctx):
         if n['k'] == 'ArraySubscriptExpr' and f.s(n['kids'][0]) in ('major_formats', 'subtype_formats'):
             alen = prog.global_(f.s(n['kids'][0]))['alen']
             b = bd.ev(f.unwrap(f.N[n['kids'][1]]))
-            ok = b.lo is not None and b.lo >= 0 and b.hi is not None and b.hi <= alen - 1
+            ok = b.lo is not None and b.lo == 0 and b.hi is not None and b.hi == alen - 1
             ctx.ob('FORMAT-LISTS', 'psf_get_format_info:%s[%s]@%s' % (f.s(n['kids'][0]), f.s(n['kids'][1]), 'cmp' if f.parent.get(n['id']) is not None and f.N[f.parent[n['id']]]['k'] == 'MemberExpr' else 'copy'),
-                   ok, f.loc(n), 'index %s' % ('within table' if ok else 'NOT proven within table: %r' % b), repr(b))
+                   ok, f.loc(n), 'search index %s' % ('covers exactly [0,%d] (whole table)' % (alen - 1) if ok else 'does NOT range over exactly the whole table [0,%d]: %r' % (alen - 1, b)), repr(b))
